@@ -1,6 +1,6 @@
 (* C01 — proofs: the generic round trip against the abstract wire interface. *)
 From Coq Require Import List NArith ZArith Bool Lia Permutation Arith.
-From Verif Require Import Base.Outcome Gen.Consts Wire.Item Generic.Types Generic.Enc Generic.Dec.
+From Verif Require Import Base.Outcome Gen.Consts Wire.Item Generic.Types Generic.Enc Generic.Dec C01.Model.
 Import ListNotations.
 Open Scope bool_scope.
 
@@ -711,3 +711,258 @@ Section Core.
           -- unfold ws. apply in_map_iff. exists nv. auto.
   Qed.
 End Core.
+
+(* ---------- map iteration order ---------- *)
+Lemma keq_sym : forall a b, keq a b = keq b a.
+Proof.
+  intros va vb.
+  destruct va as [x|x|x|x|x|x|x|x|x x'|x|x|x|x|x]; destruct vb as [y|y|y|y|y|y|y|y|y y'|y|y|y|y|y]; simpl; try reflexivity.
+  - destruct x, y; reflexivity.
+  - apply Z.eqb_sym.
+  - apply N.eqb_sym.
+  - unfold feq32. rewrite (N.eqb_sym x y). destruct (nan32 x), (nan32 y); simpl; try reflexivity.
+    destruct (N.eqb y x); simpl; [reflexivity|]. apply andb_comm.
+  - unfold feq64. rewrite (N.eqb_sym x y). destruct (nan64 x), (nan64 y); simpl; try reflexivity.
+    destruct (N.eqb y x); simpl; [reflexivity|]. apply andb_comm.
+  - apply eqbl_sym.
+Qed.
+
+Lemma existsb_perm : forall {A} (f : A -> bool) l l', Permutation l l' -> existsb f l = existsb f l'.
+Proof.
+  intros A f l l' H. induction H; simpl; try congruence.
+  destruct (f x), (f y); reflexivity.
+Qed.
+
+Lemma forallb_perm : forall {A} (f : A -> bool) l l', Permutation l l' -> forallb f l = forallb f l'.
+Proof.
+  intros A f l l' H. induction H; simpl; try congruence.
+  destruct (f x), (f y); reflexivity.
+Qed.
+
+Lemma keys_distinct_perm : forall l l', Permutation l l' -> keys_distinct l = keys_distinct l'.
+Proof.
+  intros l l' H. induction H; simpl; try congruence.
+  - rewrite IHPermutation. rewrite (existsb_perm _ _ _ H). reflexivity.
+  - rewrite (keq_sym y x). destruct (keq x y); simpl; [reflexivity|].
+    destruct (existsb (keq x) l), (existsb (keq y) l); reflexivity.
+Qed.
+
+Definition ro_list (pi : order) (p : path) : nat -> list gv -> list gv :=
+  fix go (i : nat) (l : list gv) : list gv :=
+    match l with [] => [] | x :: r => reorder pi (i :: p) x :: go (S i) r end.
+Definition ro_map (pi : order) (p : path) : nat -> list (gv * gv) -> list (gv * gv) :=
+  fix go (i : nat) (l : list (gv * gv)) : list (gv * gv) :=
+    match l with [] => [] | kv :: r => (fst kv, reorder pi (i :: p) (snd kv)) :: go (S i) r end.
+Definition ro_fields (pi : order) (p : path) : nat -> list (name * gv) -> list (name * gv) :=
+  fix go (i : nat) (l : list (name * gv)) : list (name * gv) :=
+    match l with [] => [] | nv :: r => (fst nv, reorder pi (i :: p) (snd nv)) :: go (S i) r end.
+
+Lemma reorder_list_eq : forall pi p l, reorder pi p (GList (Some l)) = GList (Some (ro_list pi p 0 l)).
+Proof. reflexivity. Qed.
+Lemma reorder_arr_eq : forall pi p l, reorder pi p (GArr l) = GArr (ro_list pi p 0 l).
+Proof. reflexivity. Qed.
+Lemma reorder_map_eq : forall pi p l, reorder pi p (GMap (Some l)) = GMap (Some (pi p (ro_map pi p 0 l))).
+Proof. reflexivity. Qed.
+Lemma reorder_struct_eq : forall pi p fs, reorder pi p (GStruct fs) = GStruct (ro_fields pi p 0 fs).
+Proof. reflexivity. Qed.
+
+Section Order.
+  Variable W : wire.
+  Variable O : gopts.
+  Variable pi : order.
+  Hypothesis Hpi : order_ok pi.
+
+  Lemma nilenc_reorder : forall v p, nilenc W O (reorder pi p v) = nilenc W O v.
+  Proof.
+    induction v using gv_ind'; intro p; try reflexivity.
+    cbn [reorder nilenc]. apply IHv.
+  Qed.
+
+  Lemma ro_list_length : forall p l i, length (ro_list pi p i l) = length l.
+  Proof. induction l as [|x r IH]; intro i; simpl; [reflexivity|]. rewrite IH. reflexivity. Qed.
+
+  Lemma ro_list_wt : forall te p l, Forall (fun v => forall t p, wt t v = true -> wt t (reorder pi p v) = true) l ->
+    forall i, forallb (wt te) l = true -> forallb (wt te) (ro_list pi p i l) = true.
+  Proof.
+    intros te p l H. induction H as [|x r Hx _ IH]; intros i Hwt; [reflexivity|].
+    simpl in *. apply andb_true_iff in Hwt. destruct Hwt as [H1 H2]. rewrite (Hx _ _ H1). simpl. apply IH. exact H2.
+  Qed.
+
+  Lemma ro_map_fst : forall p l i, map fst (ro_map pi p i l) = map fst l.
+  Proof. induction l as [|x r IH]; intro i; simpl; [reflexivity|]. rewrite IH. reflexivity. Qed.
+
+  Lemma ro_map_wt : forall t1 t2 p l,
+    Forall (fun kv : gv * gv =>
+              (forall t p, wt t (fst kv) = true -> wt t (reorder pi p (fst kv)) = true) /\
+              (forall t p, wt t (snd kv) = true -> wt t (reorder pi p (snd kv)) = true)) l ->
+    forall i, forallb (fun kv => wt t1 (fst kv) && key_nonnan (fst kv) && wt t2 (snd kv)) l = true ->
+              forallb (fun kv => wt t1 (fst kv) && key_nonnan (fst kv) && wt t2 (snd kv)) (ro_map pi p i l) = true.
+  Proof.
+    intros t1 t2 p l H. induction H as [|x r [_ Hx] _ IH]; intros i Hall; [reflexivity|].
+    simpl in *. apply andb_true_iff in Hall. destruct Hall as [H1 H2].
+    apply andb_true_iff in H1. destruct H1 as [H1 H3]. rewrite H1. rewrite (Hx _ _ H3). simpl. apply IH. exact H2.
+  Qed.
+
+  Lemma wt_reorder : forall v t p, wt t v = true -> wt t (reorder pi p v) = true.
+  Proof.
+    induction v using gv_ind'; intros t p Hwt; try exact Hwt.
+    - (* slice *)
+      destruct t; try discriminate Hwt. rewrite reorder_list_eq. cbn [wt] in *. rewrite wt_list_fix in *.
+      apply ro_list_wt; assumption.
+    - (* array *)
+      destruct t; try discriminate Hwt. rewrite reorder_arr_eq. cbn [wt] in *. rewrite wt_list_fix in *.
+      apply andb_true_iff in Hwt. destruct Hwt as [Hn Hwt]. apply andb_true_iff. split.
+      + rewrite ro_list_length. exact Hn.
+      + apply ro_list_wt; assumption.
+    - (* map *)
+      destruct t; try discriminate Hwt. rewrite reorder_map_eq. cbn [wt] in *. rewrite wt_map_fix in *.
+      apply andb_true_iff in Hwt. destruct Hwt as [Hall Hd].
+      rewrite (forallb_perm _ _ _ (Hpi p (ro_map pi p 0 l))). rewrite (ro_map_wt _ _ _ _ H 0 Hall). simpl.
+      rewrite (keys_distinct_perm _ _ (Permutation_map fst (Hpi p (ro_map pi p 0 l)))). rewrite ro_map_fst. exact Hd.
+    - (* pointer *)
+      destruct t; try discriminate Hwt. cbn [reorder wt] in *. apply IHv. exact Hwt.
+    - (* struct *)
+      destruct t as [| | | | | | | | | | | | |fts]; try discriminate Hwt. rewrite reorder_struct_eq. cbn [wt] in *.
+      revert fts Hwt. generalize 0. induction H as [|[n x] r Hx _ IH]; intros i fts Hwt; [exact Hwt|].
+      destruct fts as [|[n2 tf] fr]; [discriminate Hwt|].
+      cbn [fst snd ro_fields] in *. apply andb_true_iff in Hwt. destruct Hwt as [H1 H3]. apply andb_true_iff in H1. destruct H1 as [H1 H2].
+      rewrite H1. rewrite (Hx _ _ H2). simpl. apply IH. exact H3.
+  Qed.
+
+  Lemma veq_norm_reorder : forall v p, veq (norm W O (reorder pi p v)) (norm W O v).
+  Proof.
+    induction v using gv_ind'; intro p; try apply veq_refl.
+    - (* slice *)
+      rewrite reorder_list_eq. cbn [norm]. apply veq_list. generalize 0.
+      induction H as [|x r Hx _ IH]; intro i; simpl; constructor; [apply Hx|apply IH].
+    - rewrite reorder_arr_eq. cbn [norm]. apply veq_arr. generalize 0.
+      induction H as [|x r Hx _ IH]; intro i; simpl; constructor; [apply Hx|apply IH].
+    - (* map *)
+      rewrite reorder_map_eq. cbn [norm].
+      apply veq_map with (m := map (fun kv => (norm W O (fst kv), norm W O (snd kv))) (ro_map pi p 0 l)).
+      + apply Permutation_map. apply Hpi.
+      + generalize 0. induction H as [|x r [_ Hx] _ IH]; intro i; simpl; constructor.
+        * split; [apply veq_refl|apply Hx].
+        * apply IH.
+    - (* pointer *)
+      cbn [reorder norm]. rewrite nilenc_reorder. destruct (nilenc W O v); [apply veq_refl|].
+      apply veq_ptr. apply IHv.
+    - (* struct *)
+      rewrite reorder_struct_eq. cbn [norm]. apply veq_struct. generalize 0.
+      induction H as [|x r Hx _ IH]; intro i; simpl; constructor; [split; [reflexivity|apply Hx]|apply IH].
+  Qed.
+End Order.
+
+Lemma ksort_ok : order_ok (fun _ l => ksort l).
+Proof. intros p l. apply sort_by_perm. Qed.
+
+(* ---------- the theorem ---------- *)
+Theorem generic_roundtrip : forall (W : wire) (O : gopts) (pi : order) (t : ty) (v : gv),
+  wire_ok W -> order_ok pi ->
+  wt t v = true -> supported t = true -> leaves_ok W (to_item O pi v) = true ->
+  (Z.of_nat (depth (to_item O pi v)) < maxdepth O)%Z ->
+  of_item W O 0 t (wn W (to_item O pi v)) = Ok (norm W O (arrange O pi v)) /\
+  veq (norm W O (arrange O pi v)) (norm W O v).
+Proof.
+  intros W O pi t v HW Hpi Hwt Hs Hl Hd. unfold to_item, arrange in *.
+  assert (Hpi' : order_ok (if canonical O then fun _ l => ksort l else pi)).
+  { destruct (canonical O); [apply ksort_ok|exact Hpi]. }
+  split.
+  - apply (core_rt W O HW); [apply wt_reorder; assumption|exact Hs|exact Hl|]. simpl. exact Hd.
+  - apply veq_norm_reorder. exact Hpi'.
+Qed.
+
+(* ---------- the losses, explicitly ---------- *)
+Lemma nilenc_L : forall W O v, nilenc W O v = nilencL (losses_of W) O v.
+Proof. reflexivity. Qed.
+
+Lemma norm_L : forall W O v, norm W O v = normL (losses_of W) O v.
+Proof. reflexivity. Qed.
+
+Lemma nilencL_ext : forall A B O, same_losses A B -> forall v, nilencL A O v = nilencL B O v.
+Proof.
+  intros A B O [_ [_ [_ H4]]]. induction v using gv_ind'; try reflexivity.
+  - cbn [nilencL]. apply H4.
+  - cbn [nilencL]. exact IHv.
+Qed.
+
+Lemma normL_ext : forall A B O, same_losses A B -> forall v, normL A O v = normL B O v.
+Proof.
+  intros A B O HS. pose proof HS as [H1 [H2 [H3 H4]]]. induction v using gv_ind'; try reflexivity.
+  - cbn [normL]. rewrite H1. reflexivity.
+  - cbn [normL]. rewrite H2. reflexivity.
+  - cbn [normL]. rewrite H3. reflexivity.
+  - cbn [normL]. do 2 f_equal. induction H as [|x r Hx _ IH]; simpl; congruence.
+  - cbn [normL]. f_equal. induction H as [|x r Hx _ IH]; simpl; congruence.
+  - cbn [normL]. do 2 f_equal. induction H as [|x r [Hk Hx] _ IH]; simpl; congruence.
+  - cbn [normL]. rewrite (nilencL_ext A B O HS). rewrite IHv. reflexivity.
+  - cbn [normL]. f_equal. induction H as [|x r Hx _ IH]; simpl; congruence.
+Qed.
+
+(* the round trip with a format's documented losses spelled out *)
+Theorem roundtrip_losses : forall (L : losses) (W : wire) (O : gopts) (pi : order) (t : ty) (v : gv),
+  wire_ok W -> same_losses (losses_of W) L -> order_ok pi ->
+  wt t v = true -> supported t = true -> leaves_ok W (to_item O pi v) = true ->
+  (Z.of_nat (depth (to_item O pi v)) < maxdepth O)%Z ->
+  of_item W O 0 t (wn W (to_item O pi v)) = Ok (normL L O (arrange O pi v)) /\
+  veq (normL L O (arrange O pi v)) (normL L O v).
+Proof.
+  intros L W O pi t v HW HL Hpi Hwt Hs Hl Hd.
+  destruct (generic_roundtrip W O pi t v HW Hpi Hwt Hs Hl Hd) as [H1 H2].
+  split.
+  - rewrite H1. rewrite norm_L. rewrite (normL_ext _ _ O HL). reflexivity.
+  - rewrite <- (normL_ext _ _ O HL (arrange O pi v)). rewrite <- (normL_ext _ _ O HL v). exact H2.
+Qed.
+
+(* ---------- the interface is satisfiable ---------- *)
+Lemma id_wire_ok : wire_ok id_wire.
+Proof.
+  assert (Hs : scalar_ok id_wire (fun i => i)).
+  { constructor; intros; simpl; try (split; reflexivity); try reflexivity. }
+  constructor; try exact Hs; intros; simpl; try reflexivity; try (split; reflexivity).
+  - f_equal. symmetry. apply map_id.
+  - f_equal. symmetry. rewrite <- (map_id l) at 2. apply map_ext. intros [a b]. reflexivity.
+Qed.
+
+Lemma cb_wire_ok : wire_ok cb_wire.
+Proof.
+  assert (Hs : scalar_ok cb_wire cb_wn).
+  { constructor; intros; simpl; try (split; reflexivity); try reflexivity.
+    destruct (0 <=? z)%Z eqn:E; simpl; [|split; reflexivity].
+    apply Z.leb_le in E. split; [reflexivity|].
+    assert (Hlt : (Z.to_N z <? 2 ^ 63)%N = true). { apply N.ltb_lt. change (2 ^ 63)%N with (Z.to_N (2 ^ 63)). apply Z2N.inj_lt; lia. }
+    change (N.pos (2 ^ 63)) with (2 ^ 63)%N. rewrite Hlt. rewrite Z2N.id by lia. reflexivity. }
+  constructor; try exact Hs; intros; simpl; try reflexivity; try (split; reflexivity).
+  unfold is_time_zero. destruct (Z.eqb s time_zero_sec && N.eqb n 0) eqn:E; simpl.
+  - apply andb_true_iff in E. destruct E as [E1 E2]. apply Z.eqb_eq in E1. apply N.eqb_eq in E2. subst. reflexivity.
+  - destruct (round_us s n). reflexivity.
+Qed.
+
+Lemma cb_wire_losses : same_losses (losses_of cb_wire) cbor_losses.
+Proof.
+  repeat apply conj; intros; simpl; try reflexivity.
+  destruct (is_time_zero s n); reflexivity.
+Qed.
+
+Lemma id_wire_losses : same_losses (losses_of id_wire)
+                                   (mklosses (fun b => b) (fun b => b) (fun s n => (s, n)) (fun _ _ => false)).
+Proof. repeat apply conj; intros; reflexivity. Qed.
+
+Lemma cb_leaves_ok : forall i, leaves_ok cb_wire i = true.
+Proof.
+  induction i using item_ind'; try reflexivity.
+  - cbn [leaves_ok]. apply forallb_forall. rewrite Forall_forall in H. exact H.
+  - cbn [leaves_ok]. apply forallb_forall. rewrite Forall_forall in H. intros kv Hkv.
+    destruct (H kv Hkv) as [H1 H2]. rewrite H1, H2. reflexivity.
+  - cbn [leaves_ok]. exact IHi.
+Qed.
+
+Lemma cbwire_roundtrip : forall (O : gopts) (pi : order) (t : ty) (v : gv),
+  order_ok pi -> wt t v = true -> supported t = true ->
+  (Z.of_nat (depth (to_item O pi v)) < maxdepth O)%Z ->
+  of_item cb_wire O 0 t (cb_wn (to_item O pi v)) = Ok (normL cbor_losses O (arrange O pi v)) /\
+  veq (normL cbor_losses O (arrange O pi v)) (normL cbor_losses O v).
+Proof.
+  intros O pi t v Hpi Hwt Hs Hd.
+  apply (roundtrip_losses cbor_losses cb_wire O pi t v cb_wire_ok cb_wire_losses Hpi Hwt Hs (cb_leaves_ok _) Hd).
+Qed.
